@@ -895,6 +895,7 @@ class DecoderAnalysis:
 def run(prog, tier, extra=None):
     res = Result("C10", "other")
     R = res.rule("C10.total", "panic-capable operations on input bytes in decoder bodies are discharged by dominating length facts", floor=200)
+    RR = res.rule("C10.no-recursion", "no decoder body calls back into itself: recursion depth would be chosen by the input", floor=10)
     RS = res.rule("C10.signature", "a decoder with undischarged obligations can express failure (returns Result/Option)", floor=len(ENTRY) - 1)
     da = DecoderAnalysis(prog)
     da.via = {}
@@ -963,6 +964,36 @@ def run(prog, tier, extra=None):
             res.add(Finding(R, "C10.total|%s|%s|%d" % (path, o["kind"], n),
                             "%s: %s `%s` is not covered by a length check and can panic on a short or hostile input"
                             % (name, o["kind"], o["desc"][:100]), o["loc"], {"callers": o.get("callers", [])[:5]}))
+    # a decoder that (directly or through other decoders) calls itself recurses as deep as the sender nests its payload: a stack
+    # overflow is an abort, not a catchable panic. The bodies analysed above (entry decoders and everything they hand bytes to) must
+    # form an acyclic call graph.
+    dec_bodies = {path for (path, ctx, fkey) in da.memo}
+    edges_dec = {}
+    for path in dec_bodies:
+        b = prog.body(path)
+        if b is None:
+            continue
+        for bb, t in b.calls():
+            tgt = t.get("res") or t.get("callee") or ""
+            if tgt in dec_bodies:
+                edges_dec.setdefault(path, set()).add((tgt, bb))
+    res.instance(RR, len(dec_bodies))
+
+    def reaches(src, dst, seen):
+        for (nx, _bb) in edges_dec.get(src, ()):
+            if nx == dst:
+                return True
+            if nx not in seen:
+                seen.add(nx)
+                if reaches(nx, dst, seen):
+                    return True
+        return False
+    for path in sorted(dec_bodies):
+        for (tgt, bb) in sorted(edges_dec.get(path, ())):
+            if tgt == path or reaches(tgt, path, {tgt}):
+                b = prog.body(path)
+                res.add(Finding(RR, "C10.no-recursion|%s|%s" % (path, tgt), "%s calls %s, which leads back to it: the decoder recurses once per nesting level of the input and a "
+                                "deeply nested payload overflows the stack (process abort, not an error)" % (path.replace(CORE, ""), tgt.replace(CORE, "")), b.loc(bb)))
     res.extra["decoders"] = {p.replace(CORE, ""): v for p, v in sorted(per_body.items())}
     res.extra["obligations_total"] = total_obl
     res.extra["discharged_total"] = total_ok
